@@ -305,6 +305,32 @@ class SStr:
     def lower(self):
         return _case_map(self.items, False)
 
+    def translate(self, table):
+        """str.translate with a dict table: a symbolic character is a table lookup (one path per
+        shape of replacement), characters outside the table map to themselves"""
+        from . import shims
+
+        if not _real_isinstance(table, dict):
+            raise Unsupported("str.translate with a non-dict table on symbolic text")
+        out = []
+        for c in self.items:
+            if _real_isinstance(c, _real_int):
+                r = table.get(c, c)
+            else:
+                pairs = [(z3.simplify(c == z3.IntVal(k)), v) for k, v in table.items() if _real_isinstance(k, _real_int)]
+                r = shims.sym_lookup(pairs, default=shims._MISSING)
+                if r is shims._MISSING:
+                    r = None
+                    out.append(c)
+                    continue
+            if r is None:
+                continue
+            if _real_isinstance(r, _real_int):
+                out.append(r)
+            else:
+                out.extend(citems(r))
+        return mk_str(out)
+
     def isascii(self):
         for c in self.items:
             if _real_isinstance(c, _real_int):
